@@ -9,8 +9,9 @@ open Vutil
 let hexd = "0123456789abcdef"
 let hex_of_bytes (l : z list) : string =
   let b = Buffer.create 256 in
-  List.iter (fun v -> let n = (int_of_z v) land 255 in
-              Buffer.add_char b hexd.[n lsr 4]; Buffer.add_char b hexd.[n land 15]) l;
+  List.iter (fun v -> let n = int_of_z v in
+              if n < 0 then Buffer.add_string b "uu"      (* a byte the C code leaves undefined *)
+              else (let n = n land 255 in Buffer.add_char b hexd.[n lsr 4]; Buffer.add_char b hexd.[n land 15])) l;
   Buffer.contents b
 let hv c = match c with '0'..'9' -> Char.code c - 48 | 'a'..'f' -> Char.code c - 87 | 'A'..'F' -> Char.code c - 55 | _ -> 0
 let bytes_of_hex (s : string) : z list =
@@ -192,6 +193,11 @@ let dec_mode () =
         let hx = match rest with [h] -> h | _ -> "" in
         pending := TL (bytes_of_hex hx) :: !pending; print_endline "l"
     | "seg" :: _ -> print_endline "seg"
+    | ["api"; "extsize"; w; h] ->
+        (* SendExtDesktopSize called by the application between two messages *)
+        (match !st with
+         | None -> print_endline "api none"
+         | Some s -> let s' = api_ext_size (zi w) (zi h) (clr_log s) in report "api" s'; st := Some (clr_log s'))
     | ["run"] ->
         (match !st with
          | None -> print_endline "end none"
